@@ -184,6 +184,17 @@ BENIGN = [
         ["C02", "C01", "C11", "C18"],
     ),
     (
+        "strict-image-size",
+        [
+            (
+                "ceos_alos2/sar_image/__init__.py",
+                "    group[\"data\"] = Variable(\n",
+                "    expected_size = 720 + header[\"number_of_sar_data_records\"] * header[\"sar_data_record_length\"]\n    if fs.size(path) > expected_size:\n        raise ValueError(f\"{path}: {fs.size(path) - expected_size} bytes behind the last record\")\n\n    group[\"data\"] = Variable(\n",
+            )
+        ],
+        ["C01", "C06", "C11", "C18", "C07"],
+    ),
+    (
         "mapper-getitem-missing-summary",
         [("ceos_alos2/summary.py", "        raise OSError(\n", "        raise FileNotFoundError(\n")],
         ["C18"],
